@@ -723,6 +723,27 @@ func (x *Exec) eval(sx *SX, env *Env) Val {
 			}
 		}
 		return v
+	case "callresn":
+		// (callresn "key" n): the result of the n-th (0-based) call of the one called function matching key
+		if env.st == nil {
+			x.specFail("callresn outside a path")
+		}
+		k, _ := strconv.Unquote(args[0].Atom)
+		var keys []string
+		for ck := range env.st.callRes {
+			if strings.Contains(ck, k) {
+				keys = append(keys, ck)
+			}
+		}
+		if len(keys) != 1 {
+			x.specFail("callresn %q matches %d called functions on this path", k, len(keys))
+		}
+		rs := env.st.callRes[keys[0]]
+		n, _ := strconv.Atoi(args[1].Atom)
+		if n < 0 || n >= len(rs) {
+			x.specFail("callresn %q: call %d of %d", k, n, len(rs))
+		}
+		return rs[n]
 	case "before":
 		// (before "A" "B"): on this path some call matching A happens, and the first one precedes the first call matching B
 		if env.st == nil {
